@@ -87,14 +87,17 @@ _REC = _Rec()
 class _Frame:
     """Opaque compressed form of a hidden plaintext."""
 
-    __slots__ = ("codec", "container", "declared", "level", "plain")
+    __slots__ = ("codec", "container", "declared", "level", "plain", "truncated")
 
-    def __init__(self, codec: str, plain: bytes, declared: int = -1, level: int = 0, container: int = 31) -> None:
+    def __init__(self, codec: str, plain: bytes, declared: int = -1, level: int = 0, container: int = 31, truncated: bool = False) -> None:
         self.codec = codec
-        self.plain = plain
+        self.plain = plain  # what the frame can deliver
         self.declared = declared
         self.level = level
         self.container = container
+        # True: the frame ends before its last block / trailer (``plain`` is then only the decodable prefix);
+        # zlib never reports eof, zstd's one-shot API fails, zstd's reader just ends.  Used by C17 only.
+        self.truncated = truncated
 
     def __bool__(self) -> bool:
         return True
@@ -162,7 +165,7 @@ class _GzDecompressObj:
         _REC.produced += k
         rem -= k
         self.unconsumed_tail = _TAIL if rem > self._pend else b""
-        self.eof = rem == 0
+        self.eof = rem == 0 and not frame.truncated
         return out
 
     def flush(self, length: int = 0) -> bytes:
@@ -175,7 +178,7 @@ class _GzDecompressObj:
         out = frame.plain[self._pos : self._pos + k]
         self._pos += k
         _REC.produced += k
-        if self._pos == len(frame.plain):
+        if self._pos == len(frame.plain) and not frame.truncated:
             self.eof = True
         return out
 
@@ -281,6 +284,8 @@ class _ZDecompressor:
             d = max_output_size
         _REC.alloc += d  # the one-shot API allocates the declared size up front
         n = len(data.plain)
+        if data.truncated:
+            raise _real_zstd.ZstdError("decompression error: did not decompress full frame")
         if d != n:
             raise _real_zstd.ZstdError("decompression error: Destination buffer is too small / Data corruption detected")
         _REC.produced += n
@@ -391,8 +396,8 @@ def real_zstd_frame(plain: bytes, mode: int, lie: int = 0) -> bytes | None:
     if mode == 0:
         return _real_zstd.ZstdCompressor(level=3).compress(plain)
     if mode in (1, 2):
-        co = _real_zstd.ZstdCompressor(level=3).compressobj()
-        return co.compress(plain) + co.flush()
+        # what streaming writers emit: no content size in the header (also for the empty input)
+        return _real_zstd.ZstdCompressor(level=3, write_content_size=False).compress(plain)
     frame = bytearray(_real_zstd.ZstdCompressor(level=3).compress(plain))
     # single-segment frame: magic(4) FHD(1) FCS(1|2|4|8) — patch the 1-byte FCS when that is the layout
     fhd = frame[4]
@@ -554,8 +559,30 @@ def _replay_cap(enc: cod.Encoding, plain: bytes, cap: int | None, mode: int, lie
     return None
 
 
+def _replay_gzip_pending(n: int, cap: int) -> str | None:
+    """Real zlib keeps decoded bytes inside its state (and returns them from flush()) when the member's
+    trailer is missing: zeros, k full chunks + a short rest, trailer cut.  Only 'never more than the cap'
+    is demanded of such an input."""
+    n2 = (n // _CHUNK) * _REAL_CHUNK + n % _CHUNK
+    c2 = (cap // _CHUNK) * _REAL_CHUNK + cap % _CHUNK
+    member = cod.compress(cod.Encoding.GZIP, b"\x00" * n2)[:-8]
+    got, out, msg, m = _real_outcome(cod.Encoding.GZIP, member, c2)
+    call = f"decompress(GZIP, <gzip member of {n2} zero bytes without its trailer>, max_output_size={c2})"
+    if got == "ok" and out is not None and len(out) > c2:
+        return f"{call} returned {len(out)} bytes — more than the cap"
+    if m.bad:
+        return f"{call}: {m.bad}"
+    if m.produced > c2 + _REAL_CHUNK:
+        return f"{call} materialised {m.produced} decoded bytes"
+    return None
+
+
 def _replay_gzip(args: dict) -> str | None:
-    return _replay_cap(cod.Encoding.GZIP, args["plain"], args["cap"] if args["has_cap"] else None, 0, 0)
+    cap = args["cap"] if args["has_cap"] else None
+    r = _replay_cap(cod.Encoding.GZIP, args["plain"], cap, 0, 0)
+    if r is None and cap is not None and args.get("pend", 0) > 0:
+        r = _replay_gzip_pending(len(args["plain"]), cap)
+    return r
 
 
 def _replay_zstd(args: dict) -> str | None:
@@ -713,7 +740,30 @@ def _replay_dispatch(args: dict) -> str | None:
         return "compress(GZIP, ...) did not produce a gzip member"
     if enc is cod.Encoding.ZSTD and _real_zstd.get_frame_parameters(packed).content_size != len(data):
         return "compress(ZSTD, ...) did not declare the content size"
+    # level actually used: compare with the library called directly on a payload whose size depends on the level
+    probe = data + _LEVEL_PROBE
+    if enc is cod.Encoding.GZIP:
+        lv = cod._DEFAULT_GZIP_LEVEL if level is None else level
+        co = _real_zlib.compressobj(lv, _real_zlib.DEFLATED, 31)
+        want = co.compress(probe) + co.flush()
+    elif enc is cod.Encoding.ZSTD:
+        want = _real_zstd.ZstdCompressor(level=cod._DEFAULT_ZSTD_LEVEL if level is None else level).compress(probe)
+    else:
+        want = probe
+    if cod.compress(enc, probe, level=level) != want:
+        return f"compress({enc.name}, ..., level={level}) did not use level {level if level is not None else 'default'}"
     return None
+
+
+def _mk_probe() -> bytes:
+    x, out = 12345, bytearray()
+    for i in range(6000):
+        x = (x * 1103515245 + 12345) & 0x7FFFFFFF
+        out.append(32 + (x >> 16) % 7 if i % 11 else (i // 11) % 251)
+    return bytes(out) * 3
+
+
+_LEVEL_PROBE = _mk_probe()
 
 
 @cond(q=40, t=120, stubs=_STUB_TEXT[:2], encoded=[cod.compress, cod.decompress, cod._compress_body_gzip, cod._compress_body_zstd],
